@@ -125,6 +125,16 @@ def shape(rng, kind, size):
             g.sb.query(g.ts, "subsumes", a=g.chain[0], b=t)
             g.sb.query(g.ts, "is_instance_of", a=g.chain[-1], b=t)
             g.sb.query(g.ts, "is_primitive", name=t)
+    elif kind == "type_diamonds":
+        # a chain of user types in which each type refers to the next one twice (a reference feature and the
+        # element type of an array feature): the closure over the *type* graph must not re-expand types
+        for i in range(size):
+            g.sb.create_type(g.ts, "t.T%d" % i, "uima.tcas.Annotation")
+        for i in range(size - 1):
+            g.sb.create_feature(g.ts, "t.T%d" % i, "first", "t.T%d" % (i + 1))
+            g.sb.create_feature(g.ts, "t.T%d" % i, "more", "uima.cas.FSArray", elem="t.T%d" % (i + 1))
+        a = g.node(ty="t.T0")
+        g.add(a)
     elif kind == "random":
         ns = [g.node() for _ in range(size)]
         for a in ns:
@@ -161,7 +171,10 @@ def impl_only_ops(ops, deadline=60.0):
         raise implrun.OpTimeout()
     old = signal.signal(signal.SIGALRM, alarm)
     try:
+        from cassis.typesystem import TypeSystemMode
         for name, fn in (("to_xmi", lambda: cas.to_xmi()), ("to_json", lambda: cas.to_json()),
+                         ("to_json_minimal", lambda: cas.to_json(type_system_mode=TypeSystemMode.MINIMAL)),
+                         ("to_xml", lambda: ts.to_xml()),
                          ("xmi_roundtrip", lambda: __import__("cassis").load_cas_from_xmi(cas.to_xmi(), typesystem=ts).to_xmi()),
                          ("json_roundtrip", lambda: __import__("cassis").load_cas_from_json(cas.to_json()).to_json()),
                          ("comparable", lambda: __import__("cassis.util", fromlist=["x"]).cas_to_comparable_text(cas))):
@@ -201,6 +214,7 @@ def run(ctx, out, budget):
                         ("inline_list", [0, 1, 12, 300] if q else [0, 1, 12, 300, 1000, 5000]),
                         ("shared_list", [0, 5, 300] if q else [0, 5, 300, 1000, 5000]),
                         ("deep_types", [30] if q else [30, 60]),
+                        ("type_diamonds", [3, 45] if q else [3, 20, 45, 80]),
                         ("random", [3, 8, 20] * (4 if q else 60))):
         for sz in sizes:
             plan.append(shape(rng, kind, sz))
